@@ -53,7 +53,7 @@ FILTER_LISTS = [
 _MARK = "C04DIGESTS:"
 
 
-CALL_SECONDS = 60.0  # one generation of these datasets takes milliseconds; longer means it does not terminate
+CALL_SECONDS = 30.0  # one generation of these datasets takes milliseconds; longer means it does not terminate
 CHILD_SECONDS = 420.0
 
 
@@ -72,7 +72,7 @@ def deadline(seconds):
         return
 
     def _raise(signum, frame):
-        raise Timeout()
+        raise Timeout("".join(traceback.format_stack(frame, limit=12)))  # where the main thread was when the time ran out
 
     old = signal.signal(signal.SIGALRM, _raise)
     signal.setitimer(signal.ITIMER_REAL, seconds)
